@@ -136,6 +136,13 @@ struct Block<T> {
 
     // The "next" block to iterate, aka the block that came before this one.
     next: Atomic<Block<T>>,
+
+    // Seal marker.
+    //
+    // Zero while the block accepts writes.  Once the block has been detached from its bucket by
+    // a clear, it is sealed: this holds the number of slots that had been claimed at that point,
+    // plus one, and no further slot can be claimed.
+    sealed: AtomicUsize,
 }
 
 impl<T> Block<T> {
@@ -147,6 +154,7 @@ impl<T> Block<T> {
         // `write`/`read` are meant to start at zero (`AtomicUsize`)
         // `slots` is an array of `MaybeUninit`, which is zero init safe
         // `next` is meant to start as "null", where the pointer (`AtomicUsize`) is zero
+        // `sealed` is meant to start at zero (`AtomicUsize`)
         unsafe { MaybeUninit::zeroed().assume_init() }
     }
 
@@ -190,9 +198,30 @@ impl<T> Block<T> {
             return true;
         }
 
+        // Once sealed, the write index no longer tells us how many slots were claimed, but the
+        // seal marker does.
+        let sealed = self.sealed.load(Ordering::Acquire);
+        if sealed != 0 {
+            return sealed - 1 == len;
+        }
+
         // We have to clamp self.write since multiple threads might race on filling the last block,
         // so the value could actually exceed BLOCK_SIZE.
         min(self.write.load(Ordering::Acquire), BLOCK_SIZE) == len
+    }
+
+    /// Seals this block so that no further slot can be claimed.
+    ///
+    /// Writers that claimed a slot before the block was sealed finish normally, and are waited
+    /// for by `is_quiesced`.  Writers that arrive afterwards are turned away, as if the block was
+    /// full, and retry against the current tail of the bucket.
+    ///
+    /// Must be called at most once, by the caller that detached the block from the bucket.
+    pub(crate) fn seal(&self) {
+        // Pushing the write index past the end of the block makes every later `push` fail, and
+        // tells us how many slots were claimed before that.
+        let claimed = min(self.write.fetch_add(BLOCK_SIZE, Ordering::AcqRel), BLOCK_SIZE);
+        self.sealed.store(claimed + 1, Ordering::Release);
     }
 
     /// Gets a slice of the data written to this block.
@@ -497,6 +526,11 @@ impl<T> AtomicBucket<T> {
             // load the data from each block and process it by calling `f`.
             while !block_ptr.is_null() {
                 let block = unsafe { block_ptr.deref() };
+
+                // Writers may still hold a reference to this block, which is no longer reachable
+                // from the bucket.  Seal it so that a writer arriving from here on retries against
+                // the new tail, instead of storing a value that nobody would ever observe.
+                block.seal();
 
                 // We wait for the block to be quiesced to ensure we get any in-flight writes, and
                 // snoozing specifically yields the reading thread to ensure things are given a
